@@ -42,6 +42,7 @@ def _install_code_replace_patch():
     import types
 
     try:
+        import crosshair.core_and_libs  # noqa: F401  (its import resets the patch table, so it has to come first)
         from crosshair import realize, register_patch
     except ImportError:
         return
@@ -72,7 +73,7 @@ OUTSIDE = [
     "(Python turns it into RuntimeError inside generators / coroutines)",
     "LookupError / TypeError raised by an *attribute* access (property, __getattr__): only AttributeError is tested as the attribute signal",
     "undefined types other than the default Undefined; sandboxed environments; awaitables that really suspend",
-    "templates outside the scenario table; more than MAXN loop items",
+    "templates outside the scenario table; more than 2 loop items",
 ]
 ASSUMPTIONS = [
     "templates are compiled natively (setup, or inside NoTracing for the fresh environments of mode B)",
@@ -81,9 +82,6 @@ ASSUMPTIONS = [
     "AttributeError / TypeError / LookupError for items",
 ]
 SUSPECTED_DEFECTS = []
-
-MAXN = 2
-
 
 # ---------------------------------------------------------------- fault controller and data objects
 class Ctl:
@@ -579,14 +577,14 @@ def _use_expected(use, v):
 def lookup_ok(syntax: int, item_beh: int, attr_beh: int, prop: bool, use: int, entry: int) -> bool:
     """
     pre: syntax == P["syntax"] and 0 <= item_beh < len(ITEM_BEH) and 0 <= attr_beh < len(ATTR_BEH)
-    pre: 0 <= use < len(USES) and 0 <= entry < len(L_ENTRIES)
+    pre: 0 <= use < P["nuses"] and 0 <= entry < len(L_ENTRIES)
     post: _
     """
     sy = P["syntax"]
     ib = ITEM_BEH[pick(item_beh, len(ITEM_BEH))]
     ab = ATTR_BEH[pick(attr_beh, len(ATTR_BEH))]
     pr = pickb(prop)
-    us = pick(use, len(USES))
+    us = pick(use, P["nuses"])
     en = L_ENTRIES[pick(entry, len(L_ENTRIES))]
     with NoTracing():
         return _lookup_native(sy, ib, ab, pr, us, en)
@@ -718,11 +716,11 @@ def conditions(tier, seed):
                                     ("async", "render_async", "render_async"), ("async", "generate_async", "render_async")):
             if name == "async" and kind != "async":
                 continue
-            if not th and (name, entry) not in (("basic", "render"), ("basic", "generate_async"), ("import", "render_async"), ("import", "generate"),
-                                                ("include", "render"), ("include", "render_async"), ("child", "generate"), ("child", "render_async")):
+            if not th and (name, entry) not in (("basic", "render"), ("basic", "generate_async"), ("import", "generate"),
+                                                ("include", "render_async"), ("child", "generate"), ("child", "render_async")):
                 continue
             kmax = _kmax(kind, name, [entry], range(maxn + 1))
-            out.append(Cond(f"seq[{name},{kind},{entry}]", "seq_ok", mode="A", timeout=to,
+            out.append(Cond(f"seq[{name},{kind},{entry}]", "seq_ok", mode="A", timeout=to * 3 // 2 if not th else to,
                             param={"mode": "A", "kind": kind, "scenario": name, "entry": entry, "oentry": oentry, "kmax": kmax, "maxn": maxn},
                             witnesses=[[0, [5], True], [3, [7], False], [kmax - 1, [1] * maxn, True], [kmax, [], False], [2, [], True]],
                             bounds=f"template {name!r} (then {OTHER[name]!r}) in the {kind} environment through {entry}: fault at any event index "
@@ -751,10 +749,11 @@ def conditions(tier, seed):
                                        f"{[(e, FLAVOURS[f]) for e, f in combos]!r}"))
     CLEAN.clear()
     # ---- mode B: lookup rule, StopIteration
+    nuses = len(USES) if th else 4
     for sy in range(len(SYNTAX)):
-        out.append(Cond(f"lookup[{SYNTAX[sy]}]", "lookup_ok", mode="B", timeout=to, param={"syntax": sy},
-                        witnesses=[[sy, 0, 0, False, 0, 0], [sy, 3, 3, True, 1, 1], [sy, 6, 1, False, 2, 2], [sy, 1, 2, True, 3, 3], [sy, 5, 3, False, 5, 0]],
-                        bounds=f"{SYNTAX[sy]}: item access {ITEM_BEH} x attribute {ATTR_BEH} (as __getattr__ or property) x uses {USES} x entry points {L_ENTRIES}; "
+        out.append(Cond(f"lookup[{SYNTAX[sy]}]", "lookup_ok", mode="B", timeout=to, param={"syntax": sy, "nuses": nuses},
+                        witnesses=[[sy, 0, 0, False, 0, 0], [sy, 3, 3, True, 1, 1], [sy, 6, 1, False, 2, 2], [sy, 1, 2, True, 3, 3], [sy, 5, 3, False, nuses - 1, 0]],
+                        bounds=f"{SYNTAX[sy]}: item access {ITEM_BEH} x attribute {ATTR_BEH} (as __getattr__ or property) x uses {USES[:nuses]} x entry points {L_ENTRIES}; "
                                "faulty object, clean object, faulty object again"))
     out.append(Cond("stopiteration", "stop_ok", mode="B", timeout=to, param={},
                     witnesses=[[0, 0, 0], [2, 3, 1], [4, 1, 2], [3, 6, 3], [5, 7, 0], [1, 4, 1]],
